@@ -153,6 +153,19 @@ func genCos(r *Rng, tier string) []string {
 		one3 := []uint32{fb(1), fb(1), fb(1)}
 		ops = append(ops, "cos "+vecHex(one3)+" "+vecHex(one3))
 	}
+	if r.Chance(1, 3) {
+		// non-identical parallel vectors of decimal fractions
+		k := Pick(r, []float32{3, 10, 0.1, -3})
+		a := []float32{0.1, 0.1, 1}
+		if r.Bool() {
+			a = []float32{0.3, 0.7, 0.1, 0.9}
+		}
+		av, bv := make([]uint32, len(a)), make([]uint32, len(a))
+		for j := range a {
+			av[j], bv[j] = fb(a[j]), fb(a[j]*k)
+		}
+		ops = append(ops, "cos "+vecHex(av)+" "+vecHex(bv))
+	}
 	for i := 0; i < n; i++ {
 		dim := Pick(r, []int{0, 1, 2, 3, 3, 5, 8, 100, 100})
 		a := randVecBits(r, dim, r.Intn(9))
@@ -169,6 +182,12 @@ func genCos(r *Rng, tier string) []string {
 			b = make([]uint32, dim)
 			for j := range a {
 				b[j] = fb(math.Float32frombits(a[j]) * 2)
+			}
+		case 6: // parallel or anti-parallel up to rounding (scaled by 3, 10, 0.1 ...): three separately rounded sums, |cos| ~ 1
+			k := Pick(r, []float32{3, 10, 0.1, -3, -0.1, 7, 1.1, -10})
+			b = make([]uint32, dim)
+			for j := range a {
+				b[j] = fb(math.Float32frombits(a[j]) * k)
 			}
 		case 4: // mismatched length
 			b = randVecBits(r, Pick(r, []int{0, 1, dim + 1, dim + 3}), r.Intn(9))
